@@ -1,4 +1,6 @@
 import Pike.Lemmas.Fresh
+import Pike.Lemmas.SysUps
+import Pike.Props.C01
 /-
 C03 — only responses the origin marked shareable are ever stored.
 Property theorems only; helper lemmas are in Pike/Lemmas/Fresh.lean.
@@ -91,6 +93,18 @@ theorem overflow_safe {c : Cfg} (hc : cfgOfFacts = some c)
   unfold Spec.C03.shareableOK at this
   simp only [Bool.and_eq_true, decide_eq_true_eq] at this
   exact this.1.2
+
+/-- FULL STATEMENT (the label is truthful).  In every reachable state of the concurrent system
+(any schedule, clock, store and upstream behaviour), a finished request that was answered as a
+hit has completed ZERO upstream requests, and every other finished request — the key's fetcher,
+a hit-for-pass or non-GET/HEAD pass, a waiter told to pass — has completed exactly ONE. -/
+theorem label_truthful {s : Sys.State} (h : Sys.Reachable Facts.waiterRereadsEntry s) (t : Tid) :
+    (∀ r a, s.pc t = .done (.hit r a) → s.ups t = 0)
+    ∧ (∀ o, s.pc t = .done (.fetched o) → s.ups t = 1)
+    ∧ (s.pc t = .done .passed → s.ups t = 1) := by
+  have hr : Sys.Reachable false s := by rw [C01.facts_handover.1] at h; exact h
+  have hu := Sys.invU_reachable hr t
+  refine ⟨fun r a hp => ?_, fun o hp => ?_, fun hp => ?_⟩ <;> rw [hu, hp] <;> rfl
 
 /- non-vacuity: the hypotheses are met by concrete inputs, and both outcomes occur -/
 example : ∃ c, cfgOfFacts = some c := ⟨_, rfl⟩
